@@ -830,8 +830,10 @@ pub fn check_echo(
         // the compiler sums mints and burns per asset in 64-bit fields
         let mut agg_overflow = false;
         for tok in 0..p.tokens.len() {
-            let m: i128 = tx.mints.iter().filter(|m| m.tok == tok).filter_map(|m| q_val(&m.q, args)).sum();
-            let b: i128 = tx.burns.iter().filter(|m| m.tok == tok).filter_map(|m| q_val(&m.q, args)).sum();
+            // per asset class: two declared assets may be one class (same policy, same - e.g. empty - name)
+            let same = |i: usize| p.tokens[i].key() == p.tokens[tok].key();
+            let m: i128 = tx.mints.iter().filter(|m| same(m.tok)).filter_map(|m| q_val(&m.q, args)).fold(0i128, |a, x| a.saturating_add(x));
+            let b: i128 = tx.burns.iter().filter(|m| same(m.tok)).filter_map(|m| q_val(&m.q, args)).fold(0i128, |a, x| a.saturating_add(x));
             if m > i64::MAX as i128 || b > (i64::MAX as i128) + 1 {
                 agg_overflow = true;
             }
@@ -952,6 +954,46 @@ pub fn check_echo(
             }
         }
     }
+}
+
+/// Exact value of every output's amount expression (template order), or None where a term cannot
+/// be evaluated (min_utxo, unknown argument, overflow of the evaluator itself).
+pub fn expected_outputs(
+    p: &Program,
+    tx: &TxSpec,
+    args: &ArgMap,
+    fee: i128,
+    bindings: &BTreeMap<String, Vec<Utxo>>,
+) -> Vec<Option<Value>> {
+    tx.outputs
+        .iter()
+        .map(|o| {
+            let mut v = Value::new();
+            for (neg, term) in &o.amount.0 {
+                let part: Value = match term {
+                    Term::Input(name) => {
+                        let sel = bindings.get(&name.to_lowercase())?;
+                        let mut sum = Value::new();
+                        for u in sel {
+                            for (k, x) in utxo_value(u) {
+                                let e = sum.entry(k).or_insert(0i128);
+                                *e = e.checked_add(x)?;
+                            }
+                        }
+                        sum
+                    }
+                    Term::MinUtxo(_) => return None,
+                    other => eval_amount(p, &Amount(vec![(false, other.clone())]), args, Some(fee), None)?,
+                };
+                for (k, x) in part {
+                    let e = v.entry(k).or_insert(0i128);
+                    *e = if *neg { e.checked_sub(x)? } else { e.checked_add(x)? };
+                }
+            }
+            v.retain(|_, x| *x != 0);
+            Some(v)
+        })
+        .collect()
 }
 
 /// ECHO-output of C02: every output of the emitted transaction holds exactly the value of the
